@@ -453,6 +453,15 @@ def main():
                  "cmd": "coqc props/C09.v", "log": build_err.log, "ok": False}
     else:
         props = C.compile_props(CID)
+    # the obligations about the TRANSLATED source, re-checked against this run's source tree
+    priv = R.private_gen_check(CID)
+    props = R.merge_private(CID, props, priv)
+    translator_errors = priv["errors"]
+    for te in translator_errors:
+        print("TRANSLATE-ERROR %s" % te[:300])
+    if not props["ok"]:
+        print("%s: proof obligations discharged %d/%d (broken: see evidence / replay)" % (
+            CID, props["discharged"], props["obligations"]))
 
     n_rand = 40000 if tier == "quick" else 2500000
     procs = R.nprocs(tier)
@@ -486,7 +495,9 @@ def main():
         verdict.violation({"kind": "operands outside the domain are not rejected with TypeError",
                            "input": {"dt1": a, "dt2": b}, "impl": what}, concrete=False)
     if (not props["ok"] or not have_oracle) and not verdict.violations:
-        verdict.violation({"kind": "broken proof obligation", "theorem_file": "coq/props/C09.v",
+        verdict.violation({"kind": ("translator abort (harness/gen_rd_add.py / gen_rd_methods.py reject the source: "
+                                    "the model is no longer shown to be the code) -- " + "; ".join(translator_errors)[:600])
+                           if translator_errors else "broken proof obligation", "theorem_file": "coq/props/C09.v",
                            "theorems": props["theorems"], "discharged": props["discharged"],
                            "input": None, "log_tail": props["log"][-3000:]}, concrete=False)
     rc = verdict.finish()
@@ -531,6 +542,12 @@ def main():
                                       "compare and subtract wall times)",
                                       "rejection of non-date / mixed naive-aware operands (TypeError)"],
         "known_findings_hit": verdict.known_hits,
+        "translated_source": {"translator_errors": translator_errors,
+                              "gen_obligations": [t for t in props["theorems"] if "_gen_" in t],
+                              "private_recheck": "cached result for identical inputs" if priv.get("cached") else "compiled in this run",
+                              "what": "gen/RdAddGen.v + gen/RdMethodsGen.v are regenerated from the source by the "
+                                      "fail-closed translators harness/gen_rd_add.py / gen_rd_methods.py; the "
+                                      "*_gen_* theorems prove generated = hand model for all inputs"},
         "anchor_coverage_of_one_shard": dict(cov_summary, note="expected missing: 116 (TypeError, exercised by the "
                                              "malformed stream outside the measured shard), 233-236 and 253-256 (_fix "
                                              "carries of microseconds / months: unreachable from this constructor, "
